@@ -85,10 +85,25 @@ ToJson(t) ==
     ELSE IF t[1] = "frozenset" THEN Obj1("frozenset", <<"a", SetToSeq({ToJson(x) : x \in t[2]})>>)
     ELSE <<"o", <<<<"real", JsonOfFloat(t[2])>>, <<"imag", JsonOfFloat(t[3])>>>>>>
 
+\* ---------------------------------------------------------------- Python's ==
+\* PyEqKey: equal keys <=> Python's == holds between the values (NaN atoms are kept apart: nan != nan).
+\* A frozenset cannot hold two ==-equal elements, so a term <<"frozenset", X>> denotes a Python value with
+\* Cardinality(X) elements only if X is Proper.
+ZeroAtoms == {"i0", "f0", "fm0", "false"}
+OneAtoms == {"i1", "f1", "true"}
+RECURSIVE PyEqKey(_)
+PyEqKey(t) ==
+    IF IsAtom(t) THEN (IF t[2] \in ZeroAtoms THEN At("i0") ELSE IF t[2] \in OneAtoms THEN At("i1") ELSE t)
+    ELSE IF t[1] = "tuple" THEN <<"tuple", [i \in DOMAIN t[2] |-> PyEqKey(t[2][i])]>>
+    ELSE IF t[1] = "frozenset" THEN <<"frozenset", {PyEqKey(x) : x \in t[2]}>>
+    ELSE IF t[3] \in {"f0", "fm0"} /\ ~IsNaN(t[2]) THEN PyEqKey(At(t[2]))      \* complex(x, 0) == x
+    ELSE t
+Proper(X) == \A x, y \in X : (x # y) => PyEqKey(x) # PyEqKey(y)
+
 \* ---------------------------------------------------------------- enumeration
 Terms0 == {At(a) : a \in AtomNames}
 Complexes(fl) == {<<"complex", r, i>> : r \in fl, i \in fl}
 Tuples(S, n) == UNION {{<<"tuple", s>> : s \in [1..k -> S]} : k \in 0..n}
-Sets(S, n) == {<<"frozenset", X>> : X \in {Y \in SUBSET S : Cardinality(Y) <= n}}
+Sets(S, n) == {<<"frozenset", X>> : X \in {Y \in SUBSET S : Cardinality(Y) <= n /\ Proper(Y)}}
 
 =============================================================================
